@@ -50,7 +50,7 @@ KEY_PK_SCOPE = "C09/show-primary-keys-account-database-scope-unsupported"
 KEY_PK_TABLE = "C09/show-primary-keys-in-table-ignores-schema"
 KEY_PK_BARE = "C09/show-primary-keys-bare-scope-empty"
 
-TYPES = ["i", "i", "n10.2", "n5.0", "n9.0", "n7.0", "f", "b", "d", "z", "t10", "t3", "t255", "t100", f"t{DEFAULT_LEN}", f"t{DEFAULT_LEN}"]
+TYPES = ["i", "i", "n10.2", "n5.0", "n9.0", "n7.0", "n20.10", "n38.12", "n30.15", "f", "b", "d", "z", "t10", "t3", "t255", "t100", f"t{DEFAULT_LEN}", f"t{DEFAULT_LEN}"]
 
 
 def ty_sql(rnd, t: str) -> str:
@@ -331,6 +331,12 @@ def _ty_info(dt, maxlen, octet, prec, scale) -> str:
 DESC_CODE = {2: "t", 0: "N", 1: "f", 13: "b", 3: "d", 8: "z"}
 
 
+def _desc_col(x) -> str:
+    """name : base type of one cursor.description entry; NUMBER columns carry their precision and scale"""
+    code = DESC_CODE.get(x.type_code, "?" + str(x.type_code))
+    return f"{_nid(x.name)}:{code}" + (f"{x.precision}.{x.scale}" if code == "N" else "")
+
+
 def _nid(name) -> str:
     return str(ID.get(str(name), "?" + str(name)))
 
@@ -370,14 +376,14 @@ def _observe_schema(conn, d: int, s: int, only=None, probes=None) -> dict:
             info = [f"{_nid(x[0])}:{_ty_info(*x[1:6])}" for x in ir]
             pos = [x[6] for x in ir]
             cur, _ = rows(f"select * from {D}.{QS}.{QN}")
-            star = [f"{_nid(x.name)}:{DESC_CODE.get(x.type_code, '?' + str(x.type_code))}" for x in cur.description]
+            star = [_desc_col(x) for x in cur.description]
             objs[nid] = {"describe": desc, "info": info, "pos_ok": pos == list(range(1, len(pos) + 1)), "star": star}
             if probes is not None:
                 # ONE long-lived cursor per object re-executes the identical text after every statement touching the object and reads
                 # its description each time (nothing else is ever described on that cursor)
                 pc = probes.setdefault((d, s, nid), conn.cursor())
                 pc.execute(f"select * from {D}.{QS}.{QN}")
-                objs[nid]["star_probe"] = [f"{_nid(x.name)}:{DESC_CODE.get(x.type_code, '?' + str(x.type_code))}" for x in pc.description]
+                objs[nid]["star_probe"] = [_desc_col(x) for x in pc.description]
         except Exception as e:
             objs[nid] = {"error": f"{type(e).__name__}: {str(e)[:120]}"}
     out["objects"] = objs
@@ -556,7 +562,14 @@ def _parse_objects(s: str) -> dict:
 
 
 def _base(t: str) -> str:
-    return "t" if t[0] == "t" else "N" if t[0] in "in" else t
+    """what the description of SELECT * must say for a declared type: NUMBER columns with their precision and scale"""
+    if t[0] == "t":
+        return "t"
+    if t == "i":
+        return "N38.0"
+    if t[0] == "n":
+        return "N" + t[1:]
+    return t
 
 
 def _check_history(chk, ops, real, reply) -> None:
